@@ -79,7 +79,7 @@ func (scRecovery) GenCfg(rng *sim.Rand, tier, prop, variant string) json.RawMess
 		c.ISSPlace = rng.Range(1, 2)
 		c.ISSBack = rng.Intn(20000)
 	}
-	c.Cookie, c.DupSA, c.SAWin = false, false, 0
+	c.Cookie, c.DupSA, c.SAWin, c.SendBlocked = false, false, 0, false
 	c.WinJitter = rng.Chance(0.3)
 	b, _ := json.Marshal(c)
 	return b
@@ -350,6 +350,18 @@ func (w *recWorld) apply(s Step) {
 			w.lastAckNo = -1
 			w.sendAck()
 		}
+	case "stretch":
+		// an application-limited flight acknowledged late and one segment at a time (each ACK restarts the
+		// timer with nothing new to send), then silence: the timeouts that follow send one segment each
+		for i := 0; i < 1+s.A%3 && w.Viol == nil; i++ {
+			w.inAdvance = true
+			w.Advance(time.Duration(s.D))
+			w.observe()
+			w.inAdvance = false
+			w.look(1)
+		}
+		w.Probes["stretched_acks_then_silence"]++
+		w.apply(Step{Op: "silent", D: int64(time.Duration(3+s.B%6) * time.Second)})
 	case "shutw":
 		// the application is done writing: the FIN queues up behind the data like one more segment
 		if !w.shut {
@@ -469,7 +481,12 @@ func max64(a, b int64) int64 {
 
 func (w *recWorld) next() Step {
 	r := w.Rng
-	switch r.Pick(4, 6, 10, 2, 1, 4, 2, 1, 1) {
+	switch r.Pick(4, 6, 10, 2, 1, 4, 2, 1, 1, 1) {
+	case 9:
+		if len(w.inbox) >= 2 {
+			return Step{Op: "stretch", A: r.Intn(3), B: r.Intn(6), D: int64(time.Duration(r.Range(60, 400)) * time.Millisecond)}
+		}
+		return Step{Op: "write", C: r.Range(2, 6)}
 	case 8:
 		if w.written > 0 && r.Chance(0.5) {
 			return Step{Op: "shutw"}
